@@ -47,7 +47,7 @@ def crate_env(crate):
 
 
 def crate_dir(crate):
-    return os.path.join(VERIF, "harness", crate)
+    return os.path.join(VERIF, "harness", registry.CRATES.get(crate, {}).get("dir", crate))
 
 
 def target_dir(crate, suffix=""):
@@ -127,7 +127,26 @@ def parse_log(text):
     return r
 
 
+import threading
+_MEM_LOCK = threading.Condition()
+_MEM_FREE = [float(os.environ.get("VERIF_TOTAL_GB", "56"))]
+
+
 def run_harness(h, tier_timeout, mem_gb):
+    need = min(h.get("mem_gb", mem_gb), float(os.environ.get("VERIF_TOTAL_GB", "56")))
+    with _MEM_LOCK:
+        while _MEM_FREE[0] < need:
+            _MEM_LOCK.wait()
+        _MEM_FREE[0] -= need
+    try:
+        return _run_harness(h, tier_timeout, mem_gb)
+    finally:
+        with _MEM_LOCK:
+            _MEM_FREE[0] += need
+            _MEM_LOCK.notify_all()
+
+
+def _run_harness(h, tier_timeout, mem_gb):
     crate = h["crate"]
     name = h["name"]
     log = os.path.join(LOGS, "%s.%s.log" % (crate, name.replace("::", ".")))
